@@ -22,6 +22,8 @@ import asyncio
 import logging
 
 import ipsim
+
+logging.disable(logging.CRITICAL)   # aiohomekit logs every scripted failure; irrelevant here
 import simacc
 import vloop
 
@@ -184,8 +186,6 @@ def run_scenario(sc):
         trace, _ = vloop.run(main)
     except vloop.Stalled:
         return [[-1, "stalled"]]
-    finally:
-        logging.disable(logging.NOTSET)
     return canon(trace)
 
 
